@@ -150,3 +150,32 @@ package config
 //@   props C06 C20
 //@   unverified calls a function value
 //@   abstracts f.Function == nil ==> err != nil && p == nil
+
+// ---- what the configuration hash is computed from (C13, C11, C10): encoding/json writes every exported field of the
+// effective configuration under its own name; a field that is renamed or left out by a tag would drop out of change
+// detection (Alias and Profile are blanked by HashSum itself, not by tags).
+//@ type CertificateContent @C13,C11,C10
+//@   json Alias ""
+//@   json SerialNumber ""
+//@   json IssuerUniqueId ""
+//@   json SubjectUniqueId ""
+//@   json Profile ""
+//@   json Subject ""
+//@   json Issuer ""
+//@   json Validity ""
+//@   json KeyAlgorithm ""
+//@   json SignatureAlgorithm ""
+//@   json Extensions ""
+//@   json Manipulations ""
+//@ type CertificateValidity @C13,C11,C10
+//@   json From ""
+//@   json Until ""
+//@   json IsStatic ""
+//@   json IsSet ""
+//@ type Manipulations @C13,C19
+//@   json Version ""
+//@   json SignatureAlgorithm ""
+//@   json SignatureValue ""
+//@   json TbsSignature ""
+//@   json TbsPublicKeyAlgorithm ""
+//@   json TbsPublicKey ""
